@@ -58,9 +58,11 @@ RULES = {
     "a/:x/c": [L("a/"), W("x"), L("/c")],
     ":y": [W("y")],
     "h/k": [L("h/k")],
+    "f/#n": [L("f/"), W("n", "int")],      # a filtered rule: its filter object is looked up again by every later edit of it
 }
 CLASH = [L("a/"), W("x", "int")]          # same pattern as a/:x, other filter -> rejected when a/:x is in the tree
 SYNTAX_ERR = "/a/<x"
+CHURN = 300                                # distinct filter specs created by one `churn` edit
 HOOKS_U = {"H:a": [L("a")], "H:a/:x": [L("a/"), W("x")], "H:h": [L("h")], "H:a/b": [L("a/b")], "H:a/": [L("a/")]}
 PREFIXES = ["/a/b*", "/a*", "/a/*", "/h*"]
 
@@ -81,8 +83,11 @@ def ops_universe():
     ops.append(("add", "a/b", (GET, POST), None, False))   # method lists: rejected as a whole when one method is taken
     ops.append(("add", "a/b", (POST, GET), None, False))
     ops.append(("add", "a", (POST, "PUT"), None, False))
+    ops.append(("add", "f/#n", POST, None, False))
+    ops.append(("add", "f/#n", GET, None, True))
     ops.append(("clash",))
     ops.append(("syntax",))
+    ops.append(("churn",))
     for n in ("n2", "m2", "n4"):
         ops.append(("remove_name", n))
     for p in PREFIXES:
@@ -150,19 +155,30 @@ def apply_op(router, model, op, step):
             ok = True
         except Exception:
             ok = False
-        if ok:
+        # the model is the specification: a registration is refused exactly when a method of it is taken (and overwrite
+        # is off) or its name belongs to another rule; a refused one leaves no trace, an accepted one is in force.
+        # The router is compared with the model afterwards, so a wrong refusal / acceptance shows as a difference
+        taken = not over and any(m in model.routes.get(r, {}) for m in meths)
+        clash = bool(name) and name in model.names and model.names[name] != r
+        if not (taken or clash):
             for m in meths:
                 model.routes.setdefault(r, {})[m] = tag
             if name:
                 model.names[name] = r
-        # a rejected registration must leave no trace: the model is unchanged and the router is compared with it
-        return "add" if ok else "add-rejected"
+            return "add" if ok else "add-WRONGLY-REJECTED"
+        return "add-rejected" if not ok else "add-WRONGLY-ACCEPTED"
     if kind == "clash":
         try:
             router.add(render(CLASH, 0), GET, Tag(tag))
             return None if "a/:x" not in model.routes else "clash-accepted?"
         except Exception:
             return "clash-rejected"
+    if kind == "churn":
+        # many other rules with filters of their own come and go elsewhere in the process (another router)
+        scratch = RadiRouter()
+        for i in range(CHURN):
+            scratch.add("/z%d/<v:re(x{%d})>" % (i, i + 1), GET, Tag("z"))
+        return "churn"
     if kind == "syntax":
         try:
             router.add(SYNTAX_ERR, GET, Tag(tag))
@@ -328,8 +344,12 @@ def make_query(history, N):
     edited, model, notes = built
     fresh = fresh_from(model)
 
+    wrong = [n for n in notes if "WRONGLY" in n]
+
     def q(path: str):
         assume(len(path) <= N)
+        if wrong:
+            return "history %r: %s (registration outcome per edit: %r)" % (history, wrong[0], notes)
         r = index_checks(edited, model)
         if r:
             return "after %r: %s" % (history, r)
@@ -365,9 +385,10 @@ BASES = [
     [A(k) for k in ("a", "ab", "a/b", "a/bc", "a/:x", "a/:x/c", ":y", "h/k")],
     [("add_hook", "H:a"), A("ab"), A("a/b")],                           # hook on a pure branch point (no route) with two literal branches
     [("add_hook", "H:a/"), A("a/b"), A("a/:x"), A("a/bc")],             # ... with a literal and a wildcard branch
+    [A("f/#n"), A("a/b"), ("churn",)],                                  # a filtered rule that is older than many other filters
 ]
 PROBES = ["", "a", "ab", "abc", "a/", "a/b", "a/bc", "a/bx", "a/x", "a/x/c", "a/b/c", "a/bc/c", "a//c", "y", "b", "h", "h/k",
-          "h/kk", "a/b/", "/a", "x/c", "a/x/d"]
+          "h/kk", "a/b/", "/a", "x/c", "a/x/d", "f/1", "f/x", "f/12/"]
 
 
 def probe_differs(router, fresh):
